@@ -145,6 +145,16 @@ def shim(module, *names, **explicit):
     return _impl.shim(module, names, explicit)
 
 
+def shim_defaults(fn, **names):
+    """replace default-argument captures of C builtins (pack=struct.pack, bytechr=bytechr) by shims (sym mode only)"""
+    if MODE == 'sym':
+        from . import shims as _sh
+        m = {}
+        for k, v in names.items():
+            m[k] = v if not isinstance(v, str) else (getattr(_sh.struct_shim, v[7:]) if v.startswith('struct.') else _sh.STANDARD[v])
+        return _impl.shim_defaults(fn, m)
+
+
 def fresh_module(name):
     """import (sym: a private re-import is not needed; shims are idempotent)"""
     __import__(name)
